@@ -120,7 +120,7 @@ pub fn follow(f: &Flow<(), Prepare>, body: &[u8], status: u16, loc: &Loc, same_h
 pub fn follow_ex(f: &Flow<(), Prepare>, body: &[u8], status: u16, loc: &Loc, same_host: bool, refuse_expect: bool) -> Result<Followed, String> {
     let mut sr = f.clone().proceed();
     let mut buf = vec![0u8; 8192];
-    sr.write(&mut buf).map_err(|e| format!("head: {:?}", e))?;
+    crate::driver::write_whole_head(&mut sr).map_err(|e| format!("head: {}", e))?;
     let mut cur = AnyFlow::SendRequest(sr).proceed()?.ok_or("cannot leave SendRequest")?;
     let mut resp = format!("HTTP/1.1 {} R\r\n", status).into_bytes();
     for (i, l) in loc.fields.iter().enumerate() {
